@@ -192,7 +192,7 @@ class FJSP(Adapter):
                 cells.append((2, 2, 4, nops, wait, None, 18))
         for nops in [(1, 1, 1), (2, 1, 1), (1, 1, 2), (1, 2, 1)]:
             for wait in (False, True):
-                cells.append((3, 2, 6, nops, wait, None, 6))
+                cells.append((3, 2, 6, nops, wait, None, 3))
         for nops in [(3, 1), (1, 2)]:
             for wait in (False, True):
                 cells.append((2, 2, 6, nops, wait, None, 4))
@@ -203,8 +203,8 @@ class FJSP(Adapter):
             cells += [(1, 2, 3, (3,), wait, None, 2), (1, 2, 3, (1,), wait, None, 0),
                       (2, 1, 4, (2, 1), wait, None, 0), (2, 1, 4, (2, 2), wait, None, 0)]
         cells += [(2, 3, 4, (2, 2), False, None, 4), (2, 3, 4, (2, 2), True, 3, 2),
-                  (3, 2, 6, (2, 2, 1), False, None, 4), (3, 2, 6, (2, 2, 1), True, 6, 0),
-                  (2, 2, 6, (3, 3), False, None, 4), (2, 2, 6, (3, 3), True, 6, 0),
+                  (3, 2, 6, (2, 2, 1), False, None, 4), (3, 2, 6, (2, 2, 1), True, 5, 0),
+                  (2, 2, 6, (3, 3), False, None, 4), (2, 2, 6, (3, 3), True, 5, 0),
                   (3, 2, 6, (2, 2, 2), False, None, 3), (3, 2, 6, (2, 2, 2), True, 4, 0)]
         return cells
 
